@@ -8,7 +8,7 @@ import time
 
 from . import evlog, instr_mp
 
-NOPROG = ("get_call", "get_empty")
+NOPROG = ("get_call", "get_empty", "is_set")
 
 
 def analyse(recs):
